@@ -45,6 +45,8 @@ CHECKS = {
          "asin, acos, atan, atan2 floors, branch conventions on the axes (bit-identical to the correctly rounded pi, pi/2), domain errors."),
  "C18": ("exploration", "enclosures of exp; monotone inversion for the inverse functions + TLC trace validation",
          "sinh, cosh, tanh, asinh, acosh, atanh floors with (x, -x) pairs at every magnitude, exact points, domain errors, panic-freedom."),
+ "C20": ("model_checking", "TLA+ contracts: tokeniser over the logged character sequence + the deserialisation acceptance automaton (well-formed and NoOverlapDef) ; TLC trace validation of the format matrix and of every input shape",
+         "Display/LowerExp/UpperExp outputs are tokenised by the specification and compared with f64 parsing / f64 renderings for the whole flag matrix; Serialize output and Deserialize outcomes (sequence, map in both orders, missing/duplicate/unknown fields, overlapping and non-finite words) are validated against the acceptance automaton with the serde feature enabled."),
 }
 NOT_YET = {}
 def main():
